@@ -110,6 +110,7 @@ pub fn net_spec(c: &Config, horizon_s: u64) -> NetSpec {
         kalman: vec![],
         per_frame: None,
         tx_ts_latency_ns: 0,
+        one_step: vec![],
     }
 }
 
@@ -451,65 +452,83 @@ pub fn run(tier: Tier) -> i32 {
         assert_deterministic(&spec, &[], &[], SNAP);
         assert_deterministic(&spec, &[], &[(3, 1)], SNAP);
     }
-    let k = tier.pick(1, 2);
-    // per configuration: default execution + all executions with <= k deviations; fault scripts on a subset
-    let results: Vec<(u64, usize, Vec<Violation>, Option<u64>)> = cfgs
-        .par_iter()
-        .enumerate()
-        .map(|(ci, c)| {
-            let mut execs = 0u64;
-            let mut viols: Vec<Violation> = vec![];
-            let mut add = |script: &Script, dev: &[(usize, usize)], v: Vec<(String, String)>| {
-                for (sig, msg) in v {
-                    let class = format!("{}:{}", sig, c.topo.name);
-                    if !viols.iter().any(|x| x.signature == class) {
-                        viols.push(Violation { signature: class, message: format!("{msg} [config {:?}; script {:?}; deviations {:?}]", c, script, dev), replay: json!({"config": c, "script": script, "dev": dev}) });
+    // iterative deviation bounding: bound 1 is completed for every configuration; thorough then
+    // goes on to bound 2, configuration by configuration, until a wall-clock budget is used up
+    let budget_s: f64 = std::env::var("VERIF_C01_BUDGET_S").ok().and_then(|s| s.parse().ok()).unwrap_or(2400.0);
+    let started = std::time::Instant::now();
+    let pass = |k: usize, with_faults: bool, budget: Option<f64>| -> Vec<Option<(u64, usize, Vec<Violation>, Option<u64>)>> {
+        cfgs.par_iter()
+            .enumerate()
+            .map(|(ci, c)| {
+                if let Some(b) = budget {
+                    if started.elapsed().as_secs_f64() > b {
+                        return None;
                     }
                 }
-            };
-            let (v0, points, conv) = run_one(c, &Script::None, &[]);
-            execs += 1;
-            add(&Script::None, &[], v0);
-            // deviations (recursive: choice points after the last deviation of the prefix)
-            fn explore(c: &Config, script: &Script, prefix: &mut Vec<(usize, usize)>, points: &[usize], k: usize, execs: &mut u64, out: &mut Vec<(Vec<(usize, usize)>, Vec<(String, String)>)>) {
-                if prefix.len() >= k {
-                    return;
-                }
-                let start = prefix.last().map(|x| x.0 + 1).unwrap_or(0);
-                for i in start..points.len() {
-                    for alt in 1..points[i] {
-                        prefix.push((i, alt));
-                        let (v, pts, _) = run_one(c, script, prefix);
-                        *execs += 1;
-                        if !v.is_empty() {
-                            out.push((prefix.clone(), v));
+                let mut execs = 0u64;
+                let mut viols: Vec<Violation> = vec![];
+                let mut add = |script: &Script, dev: &[(usize, usize)], v: Vec<(String, String)>| {
+                    for (sig, msg) in v {
+                        let class = format!("{}:{}", sig, c.topo.name);
+                        if !viols.iter().any(|x| x.signature == class) {
+                            viols.push(Violation { signature: class, message: format!("{msg} [config {:?}; script {:?}; deviations {:?}]", c, script, dev), replay: json!({"config": c, "script": script, "dev": dev}) });
                         }
-                        explore(c, script, prefix, &pts, k, execs, out);
-                        prefix.pop();
+                    }
+                };
+                let (v0, points, conv) = run_one(c, &Script::None, &[]);
+                execs += 1;
+                add(&Script::None, &[], v0);
+                // deviations (recursive: choice points after the last deviation of the prefix)
+                fn explore(c: &Config, script: &Script, prefix: &mut Vec<(usize, usize)>, points: &[usize], k: usize, execs: &mut u64, out: &mut Vec<(Vec<(usize, usize)>, Vec<(String, String)>)>) {
+                    if prefix.len() >= k {
+                        return;
+                    }
+                    let start = prefix.last().map(|x| x.0 + 1).unwrap_or(0);
+                    for i in start..points.len() {
+                        for alt in 1..points[i] {
+                            prefix.push((i, alt));
+                            let (v, pts, _) = run_one(c, script, prefix);
+                            *execs += 1;
+                            if !v.is_empty() {
+                                out.push((prefix.clone(), v));
+                            }
+                            explore(c, script, prefix, &pts, k, execs, out);
+                            prefix.pop();
+                        }
                     }
                 }
-            }
-            let mut found = vec![];
-            // quick: deviations on every 3rd configuration (all in thorough)
-            if k > 0 {
-                // only the choice points of the start-up phase can matter for the start-up verdict
+                let mut found = vec![];
                 explore(c, &Script::None, &mut vec![], &points, k, &mut execs, &mut found);
-            }
-            for (dev, v) in found {
-                add(&Script::None, &dev, v);
-            }
-            // single-fault scripts on the default schedule (and, thorough, with one deviation)
-            if tier == Tier::Thorough || ci % 2 == 0 {
-                for f in fault_scripts(c) {
-                    let s = Script::Fault(f);
-                    let (v, _pts, _) = run_one(c, &s, &[]);
-                    execs += 1;
-                    add(&s, &[], v);
+                for (dev, v) in found {
+                    add(&Script::None, &dev, v);
                 }
-            }
-            (execs, points.len(), viols, conv)
-        })
-        .collect();
+                // single-fault scripts on the default schedule (quick: every second configuration)
+                if with_faults && (tier == Tier::Thorough || ci % 2 == 0) {
+                    for f in fault_scripts(c) {
+                        let s = Script::Fault(f);
+                        let (v, _pts, _) = run_one(c, &s, &[]);
+                        execs += 1;
+                        add(&s, &[], v);
+                    }
+                }
+                Some((execs, points.len(), viols, conv))
+            })
+            .collect()
+    };
+    let mut results: Vec<(u64, usize, Vec<Violation>, Option<u64>)> = pass(1, true, None).into_iter().flatten().collect();
+    let mut k = 1;
+    let mut bound2_done = 0usize;
+    if tier == Tier::Thorough {
+        let r2 = pass(2, false, Some(budget_s));
+        bound2_done = r2.iter().filter(|r| r.is_some()).count();
+        if bound2_done == cfgs.len() {
+            k = 2;
+        } else {
+            rep.assume(format!("deviation bound 2 was completed for {bound2_done} of {} configurations within the wall-clock budget of {budget_s} s; bound 1 is complete for all", cfgs.len()));
+        }
+        results.extend(r2.into_iter().flatten());
+    }
+    rep.cover("configurations_completed_at_bound_2", json!(bound2_done));
     let mut execs = 0u64;
     let mut max_points = 0;
     let mut worst_conv = 0u64;
